@@ -4,7 +4,7 @@ from hypothesis import strategies as st
 
 from vlib import strategies as vs
 from vlib.models.cusum_ph import CusumModel, PageHinkleyModel
-from vlib.runner import SubCheck, Violation, sut
+from vlib.runner import Decoy, SubCheck, Violation, sut
 from vlib.tolerant import Forker, close
 
 
@@ -20,6 +20,7 @@ def check_cusum(case, ctx):
     xs = case["xs"]
     with sut(detector="CUSUM"):
         det = CUSUM(**p)
+    decoy = Decoy(lambda: CUSUM(**p), lambda d, v: d.update(v))
     fk = Forker(
         CusumModel(p["target"], p["sd_hat"], p["burn_in"], p["delta"], p["threshold"], p["direction"]),
         copier=lambda m: m.clone(),
@@ -27,6 +28,7 @@ def check_cusum(case, ctx):
     nalarm = 0
     for i, x in enumerate(xs):
         raised = None
+        decoy.step(3.0 * x + (i % 5))
         try:
             with sut(detector="CUSUM", allow=(ValueError,)):
                 det.update(x)
@@ -104,10 +106,12 @@ def check_ph(case, ctx):
     xs = case["xs"]
     with sut(detector="PageHinkley"):
         det = PageHinkley(**p)
+    decoy = Decoy(lambda: PageHinkley(**p), lambda d, v: d.update(v))
     fk = Forker(PageHinkleyModel(p["delta"], p["threshold"], p["burn_in"], p["direction"]), copier=lambda m: m.clone())
     nalarm = 0
     every = case.get("df_every", 1)
     for i, x in enumerate(xs):
+        decoy.step(3.0 * x + (i % 5))
         with sut(detector="PageHinkley"):
             det.update(x)
             obs = det.drift_state
